@@ -98,6 +98,7 @@ FillToks(n, f) ==
       [] f = "same"    -> Wrap(X, "wrapper", Wrap(n.ns, n.local, Wrap(n.ns, "body", <<>>)))       \* a descendant named like the element itself
       [] f = "deep"    -> Wrap(X, "l1", Wrap(X, "l2", Wrap(X, "l3", Wrap(n.ns, n.local, <<>>))))
       [] f = "two"     -> Wrap(X, "x", <<>>) \o Wrap(n.ns, n.local, <<>>)                           \* a direct child named like the element
+      [] f = "regext"  -> Wrap("urn:xmpp:receipts", "request", <<>>)   \* children with REGISTERED extension names (the harness draws them from the registry, with the attributes their types declare)
       [] f = "errcond" -> Wrap(n.ns, "error", Wrap("urn:ietf:params:xml:ns:xmpp-stanzas", "gone", <<>>)     \* <error/> with a defined condition
                                                \o Wrap("urn:ietf:params:xml:ns:xmpp-stanzas", "text", <<>>))  \* (the harness draws it from all 23) and a text
 ElemToks(e) == LET n == TopName(e.top) IN Wrap(n.ns, n.local, FillToks(n, e.fill))
